@@ -393,6 +393,10 @@ freedata(void)
 	}
 	rcptcount = 0;
 	goodrcpt = 0;
+	/* the transaction is gone: leave the states that are only valid inside of one,
+	 * otherwise RCPT TO or DATA would be accepted without a new MAIL FROM */
+	if (comstate & 0x0860)
+		comstate = (0x008 << xmitstat.esmtp);
 }
 
 /**
